@@ -67,7 +67,7 @@ impl Prop for C15 {
     const ID: &'static str = "C15";
     fn rule() -> String {
         "cases = DHW grammar: 1-4 suppliers among {direct electric, heat pump (el + ambient, optionally low-SCOP excluded), solar thermal, RED1/RED2 with user factors, fossil boiler with efficiency, BIOMASA / BIOMASADENSIFICADA boiler with or without SALIDA}, \
-         per-step values, demand consistent with the useful heat supplied (or absent / zero: non-computable classes), PV of any size shared with another service's electricity, AUX on the DHW system, other services, nEPB uses, 1-12 steps, regulatory factors with user RED1/RED2, optional cogeneration (invariances only); \
+         per-step values, demand consistent with the useful heat supplied (or absent / zero: non-computable classes), PV of any size shared with another service's electricity, AUX on the DHW system, other services, nEPB uses, 1-12 steps, regulatory factors with user RED1/RED2, 30 %: a cogeneration unit with 1-3 fuels (nearby and distant, own profiles, steps without electricity) whose electricity is used after the PV, plus an optional second unit added to the base building (invariances only); \
          oracle = closed-form fraction (f64) vs fraccion_renovable_acs_nrb within 1e-4, value in [0,1], error class parity, misc map content, and invariance under added nEPB lines, added non-electric lines of other services, another k_exp and scaling by 2^k; \
          non-trivial = >= 2 suppliers and (PV shared with another service, or AUX, or biomass)"
             .into()
@@ -196,6 +196,15 @@ impl Prop for C15 {
         }
         if c.d.has_biomass() {
             ctx.label("biomass");
+        }
+        if let Some(cg) = &c.d.cogen {
+            ctx.label("cogeneration");
+            if cg.fuels.len() >= 2 {
+                ctx.label("cogeneration:multi_fuel");
+            }
+            if cg.el.iter().zip(0..).any(|(e, t)| *e == 0 && cg.fuels.iter().any(|(_, v)| v[t] > 0)) {
+                ctx.label("cogeneration:fuel_without_electricity_step");
+            }
         }
         if c.d.n_suppliers() >= 2 && (shared_pv || c.d.aux.is_some() || c.d.has_biomass()) {
             ctx.nontrivial = true;
